@@ -87,6 +87,8 @@ func vFamilyCurated() []string {
 		"((X...)...)...", "[[X]...]...", "([-a]...)...", "[[-a]... X]...", "([X] [Y])...", "[[X] [Y]]", "(X | Y)... X",
 		"X [X] [X]", "[X] [X] X", "[X]... X", "X... X", "[-a]... -a", "-a... -a", "[-a | -b]... X", "(-a | X)... Y",
 		"[-o]... [X]...", "-o X -o Y", "(-o | X)...",
+		"-a... [-b]", "-a... -b", "-b -a...", "(-a | -b)... X", "[-o] [-e]", "-o -e", "[-a] [-o]", "[-a] [-o] [X]", "[-b] [-o] [-e]...",
+		"[--aa] [--oo] [--ee]", "-a [-b]... [-o]",
 	}
 }
 
